@@ -93,6 +93,14 @@ def run(ctx):
                 ctx.fail('C09/auto-forwarding', 'hypotest options not forwarded in the automatic scan', inp, calls[:2], kw)
             if sorted(poivals) != sorted(set(c[0] for c in calls)):
                 ctx.fail('C09/returned-results', 'returned scan points are not the evaluated points', inp)
+            for pv, rr in zip(poivals, res2):
+                want = [obs(float(pv))] + band(float(pv))
+                gotr = [float(rr[0])] + [float(x) for x in rr[1]]
+                if gotr != want:
+                    ctx.fail('C09/returned-results', 'the result reported for a scan point is not the hypothesis-test result at that point', dict(inp, point=float(pv)), gotr, want)
+                    break
+            if len(poivals) != len(res2):
+                ctx.fail('C09/returned-results', 'scan points and results differ in number', inp, len(res2), len(poivals))
             if level != 0.05: ctx.nontrivial((desc['a'], desc['p'], level, tuple(pts)))
             ctx.tally('level', 'default' if level == 0.05 else ('<0.05' if level < 0.05 else '>0.05'))
             if i < 2: ctx.sample({'curve': desc, 'level': level, 'grid_limits': got, 'auto_limits': lims})
